@@ -15,9 +15,11 @@ namespace Props.C12
 open Conc Generated
 
 /-- the class instantiated by `TCPServer.run` handles requests one at a time, and its handler
-    class processes the request inline, starting nothing concurrent on the way -/
+    class processes the request inline — `protocol.handle_request` is called directly on the
+    server's thread — starting nothing concurrent on the way (calls followed through every class
+    of comm/server.py) -/
 theorem server_is_sequential : kindOfString serverKind = .sequential ∧ serverClass = "socketserver.TCPServer" ∧
-    handlerInline = true ∧ handlerSpawns = [] := by
+    handlerInline = true ∧ handlerSpawns = [] ∧ deliveryDirect = true := by
   decide
 
 /-- the log seen as (closed blocks, block in progress) -/
